@@ -2,7 +2,7 @@
    periods).  Statements only; every proof is `exact <lemma>`; Print Assumptions under each. *)
 From Coq Require Import ZArith List Bool String Sorted.
 Import ListNotations.
-Require Import PyBase Generated Locate LocateFacts LocateExamples.
+Require Import PyBase Generated Locate LocateFacts LocateFacts2 LocateExamples.
 Open Scope Z_scope.
 Open Scope list_scope.
 
@@ -280,3 +280,39 @@ Theorem C10_write_pos_out_of_range (V : Type) (st : cstate V) (name : string) (s
   set_pos st name i v = (st, Raise IndexError).
 Proof. exact (@write_pos_out_of_range V st name sr i v). Qed.
 Print Assumptions C10_write_pos_out_of_range.
+
+(* ---------- whole-series writes (obj.X = ... / obj['X'] = ...): what is stored ---------- *)
+Theorem C10_write_whole_scalar (V : Type) (st : cstate V) (name : string) (sr : series V) (v : V) (new_id : Z) :
+  lookup name (c_vars st) = Some sr ->
+  set_whole st name (OScalar v) new_id = (set_data st name sr (map (fun _ => v) (s_data sr)), Ret tt).
+Proof. exact (fun H => @write_whole_scalar V st name sr H v new_id). Qed.
+Print Assumptions C10_write_whole_scalar.
+
+Theorem C10_write_whole_seq (V : Type) (st : cstate V) (name : string) (sr : series V) (vs : list V) (new_id : Z) :
+  lookup name (c_vars st) = Some sr ->
+  List.length vs = List.length (span_labels (c_span st)) ->
+  exists st', set_whole st name (OSeq vs) new_id = (st', Ret tt)
+    /\ lookup name (c_vars st') = Some (mkSeries (s_dtype sr) new_id vs)
+    /\ c_span st' = c_span st /\ c_attrs st' = c_attrs st /\ c_strict st' = c_strict st
+    /\ map fst (c_vars st') = map fst (c_vars st)
+    /\ (forall k, k <> name -> lookup k (c_vars st') = lookup k (c_vars st)).
+Proof. exact (fun H => @write_whole_seq V st name sr H vs new_id). Qed.
+Print Assumptions C10_write_whole_seq.
+
+Theorem C10_write_whole_wrong_length (V : Type) (st : cstate V) (name : string) (sr : series V) (vs : list V) (new_id : Z) :
+  lookup name (c_vars st) = Some sr ->
+  List.length vs <> List.length (span_labels (c_span st)) ->
+  set_whole st name (OSeq vs) new_id = (st, Raise DimensionError).
+Proof. exact (fun H => @write_whole_wrong_length V st name sr H vs new_id). Qed.
+Print Assumptions C10_write_whole_wrong_length.
+
+(* an unknown variable name: every access path raises and the object is unchanged *)
+Theorem C10_unknown_name_paths (V : Type) (lc : label -> outcome loc) (st : cstate V) (name : string) :
+  lookup name (c_vars st) = None ->
+  (forall k, get_item_with lc st name k = Raise KeyError)
+  /\ get_key st name = Raise KeyError /\ get_attr st name = Raise AttributeError
+  /\ (forall k w, fst (set_item_with lc st name k w) = st /\ exists e, snd (set_item_with lc st name k w) = Raise e)
+  /\ (forall i v, set_pos st name i v = (st, Raise KeyError))
+  /\ (forall w id, set_whole st name w id = (st, Raise KeyError)).
+Proof. exact (@unknown_name_paths V lc st name). Qed.
+Print Assumptions C10_unknown_name_paths.
